@@ -57,8 +57,8 @@ PROPS['C26'] = dict(
          'compared: both fail / same non-zero postings in order / same metadata / same account metadata',
     trusted=NS_TRUST + ['the interpreter github.com/formancehq/numscript v0.0.24 is third-party code: exercised, not modelled'], level_note=NS_NOTE,
     explanation='The interpreter side is validated by CORRESPONDENCE ONLY (head-to-head run of the two real adapters, zero-amount postings ignored); the machine side by proof + tie (Sem.run = compiler+VM on every case of this run; '
-                'C22/C28 theorems about Sem). Proved here: ignoring zero postings changes no sum and no balance effect. The unchanged tree VIOLATES the property beyond zero postings; five classes are registered as known findings with replays '
-                '(KF-C26-kept-order, KF-C26-machine-insufficient, KF-C26-asset-mismatch, KF-C26-portion-overflow, KF-C26-world-balance-var: balance(@world, A) of a negative @world is 0 for the interpreter and an error for the machine); any other disagreement is reported as a violation.',
+                'C22/C28 theorems about Sem). Proved here: ignoring zero postings changes no sum and no balance effect. The unchanged tree VIOLATES the property beyond zero postings; six classes are registered as known findings with replays '
+                '(KF-C26-kept-order, KF-C26-machine-insufficient, KF-C26-asset-mismatch, KF-C26-portion-overflow, KF-C26-world-balance-var: balance(@world, A) of a negative @world is 0 for the interpreter and an error for the machine; KF-C26-save-arith-left-only: the machine saves only the left operand of save m1 + m2, mirrored by Sem.v (leaf_value)); any other disagreement is reported as a violation.',
     technique='translation validation of the interpreter adapter against the machine adapter on generated programs; Coq lemma that the zero-posting projection is sound; machine side = Sem by differential run',
     level_text='Machine runtime: executable Coq semantics proved (C22, C28) and tied to the real compiler/VM. Interpreter runtime: compared with the machine runtime on thousands of generated scripts of the shared subset per run '
                '(no model of the third-party interpreter). Known disagreements on `kept` are reported as known findings.')
